@@ -165,3 +165,260 @@ def impl(case: Case) -> list[str]:
             f"data={','.join(map(str, data)) or '-'} rs={int(r[('resp',)] is not None)} clr={int(r[('clear',)] is not None)}"
         )
     return out
+
+
+# --------------------------------------------------------------------------- property monitor
+
+
+def monitor(case: Case, out: list[str]) -> Optional[str]:
+    """C19's sentences evaluated on the implementation's observations only."""
+    d = case.desc
+    if d["component"] == "zipper":
+        args_w: list[int] = []
+        res_w: list[int] = []
+        nreads = 0
+        for k, (op, ob) in enumerate(zip(case.ops, out[1:])):
+            i = _kv(op)
+            o = dict(x.split("=", 1) for x in ob.split())
+            where = f"zipper cycle {k} [{op}] -> [{ob}]: "
+            if o["wa"] == "1" and i["wa"] == "-" or o["wr"] == "1" and i["wr"] == "-":
+                return where + "a write executes without being attempted"
+            if o["pk"] != "-":
+                # peek_arg: the argument the next read will return
+                if nreads >= len(args_w) or int(o["pk"]) != args_w[nreads]:
+                    return where + f"peek_arg returns {o['pk']}, the oldest unread argument is {args_w[nreads:nreads + 1]}"
+            if o["wa"] == "1":
+                args_w.append(int(i["wa"]))
+            if o["wr"] == "1":
+                res_w.append(int(i["wr"]))
+            if o["rd"] != "-":
+                a, r = map(int, o["rd"].split("/"))
+                if nreads >= len(args_w) or nreads >= len(res_w) or (a, r) != (args_w[nreads], res_w[nreads]):
+                    return where + (
+                        f"read #{nreads} returns ({a},{r}) but the {nreads}-th written argument/result are "
+                        f"{args_w[nreads:nreads + 1]}/{res_w[nreads:nreads + 1]}"
+                    )
+                nreads += 1
+            elif i["rd"] == "1" and nreads < len(args_w) - (o["wa"] == "1") and nreads < len(res_w):
+                return where + "read attempted with an unread argument and result available, but it does not execute"
+        return None
+    n, depth = d["ports"], d["depth"]
+    ins: list[int] = []  # ports of executed serialize_in calls, in order
+    reqs = 0
+    nouts = 0
+    for k, (op, ob) in enumerate(zip(case.ops, out[1:])):
+        i = _kv(op)
+        o = dict(x.split("=", 1) for x in ob.split())
+        where = f"serializer cycle {k} [{op}] -> [{ob}]: "
+        att = _olist(i["in"])
+        pending = len(ins) - nouts
+        # --- requests
+        if "," in o["in"] or "," in o["out"]:
+            return where + "two ports execute in one cycle"
+        if o["in"] != "-":
+            p = int(o["in"])
+            if att[p] is None:
+                return where + f"serialize_in[{p}] executes without being attempted"
+            if o["rq"] == "-" or int(o["rq"]) != att[p]:
+                return where + f"server receives {o['rq']} for the request {att[p]} of client {p}"
+            if i["req"] != "1" or pending >= depth:
+                return where + "request accepted although the server is not ready or the queue is full"
+        else:
+            if o["rq"] != "-":
+                return where + "server receives a request nobody made"
+            if any(a is not None for a in att) and i["req"] == "1" and pending < depth:
+                return where + "a request could be served but none is"
+        # --- responses
+        if o["out"] != "-":
+            p = int(o["out"])
+            if i["out"][p] != "1":
+                return where + f"serialize_out[{p}] executes without being attempted"
+            if nouts >= len(ins):
+                return where + "a response is delivered although no request is outstanding"
+            if ins[nouts] != p:
+                return where + (
+                    f"response #{nouts} delivered to client {p}, but request #{nouts} came from client {ins[nouts]}"
+                )
+            if o["rs"] != "1" or i["resp"] != "1" or o["data"] != i["rdata"]:
+                return where + "delivered data is not the server's response of this cycle (lost or duplicated response)"
+            nouts += 1
+        else:
+            if o["rs"] != "0":
+                return where + "a server response is consumed but delivered to nobody (lost response)"
+            if pending > 0 and i["resp"] == "1" and i["out"][ins[nouts]] == "1":
+                return where + f"client {ins[nouts]} asks for its response, the server has it, but it is not delivered"
+        if o["in"] != "-":
+            ins.append(int(o["in"]))
+        if o["clr"] != i["clr"]:
+            return where + "clear attempted/executed mismatch"
+        if o["clr"] == "1":
+            del ins[nouts:]  # pending ids are dropped (BasicFifo.clear; wins over the write of this cycle)
+    return None
+
+
+def nontrivial(case: Case, out: list[str]) -> bool:
+    obs = [dict(x.split("=", 1) for x in ob.split()) for ob in out[1:]]
+    ins = [_kv(op) for op in case.ops]
+    if case.desc["component"] == "zipper":
+        fwd = any(o["rd"] != "-" and o["wr"] == "1" for o in obs)  # result forwarded in the cycle it is written
+        buf = any(o["rd"] != "-" and o["wr"] == "0" for o in obs)  # result read from the overflow register
+        full = any(i["wa"] != "-" and o["wa"] == "0" for i, o in zip(ins, obs))  # argument FIFO full
+        return fwd and buf and full
+    # serializer: >= 2 clients compete in one cycle (or there is one port) and the queue gets full at least once
+    compete = case.desc["ports"] == 1 or any(sum(x != "-" for x in i["in"].split(",")) >= 2 and o["in"] != "-" for i, o in zip(ins, obs))
+    full = any(any(x != "-" for x in i["in"].split(",")) and i["req"] == "1" and o["in"] == "-" for i, o in zip(ins, obs))
+    return compete and full and any(o["out"] != "-" for o in obs)
+
+
+# --------------------------------------------------------------------------- case generation
+
+
+def _zcase(wa: int, wr: int, ops: list[str], tag: str) -> Case:
+    return Case(f"cfg comp=zipper wa={wa} wr={wr}", ops, {"component": "zipper", "wa": wa, "wr": wr}, tag)
+
+
+def _scase(ports: int, depth: int, w: int, ops: list[str], tag: str) -> Case:
+    d = {"component": "serializer", "ports": ports, "depth": depth, "w": w}
+    d["order"] = sched_order(d)
+    return Case(
+        f"cfg comp=serializer ports={ports} depth={depth} w={w} order={','.join(map(str, d['order']))}", ops, d, tag
+    )
+
+
+def _zops(rng, wa: int, wr: int, n: int, pa: float, pr: float, prd: float, counters: bool) -> list[str]:
+    ops = []
+    ca = cr = 0
+    for _ in range(n):
+        a = r = "-"
+        if rng.random() < pa:
+            a = ca % (1 << wa) if counters else rng.randrange(1 << wa)
+            ca += 1
+        if rng.random() < pr:
+            r = (3 * cr + 1) % (1 << wr) if counters else rng.randrange(1 << wr)
+            cr += 1
+        ops.append(f"cyc wa={a} wr={r} rd={int(rng.random() < prd)} pk={int(rng.random() < 0.7)}")
+    return ops
+
+
+def _sops(rng, ports: int, w: int, n: int, pin: float, pout: float, preq: float, presp: float, pclr: float) -> list[str]:
+    ops = []
+    c = 0
+    for _ in range(n):
+        ins = []
+        for _p in range(ports):
+            if rng.random() < pin:
+                ins.append(str(c % (1 << w)))
+                c += 1
+            else:
+                ins.append("-")
+        outs = "".join(str(int(rng.random() < pout)) for _ in range(ports))
+        ops.append(
+            f"cyc in={','.join(ins)} out={outs} req={int(rng.random() < preq)} resp={int(rng.random() < presp)} "
+            f"rdata={rng.randrange(1 << w)} clr={int(rng.random() < pclr)}"
+        )
+    return ops
+
+
+def gen_cases(ctx: Check, rng) -> list[Case]:
+    cases: list[Case] = []
+    thorough = ctx.thorough
+    n = 120 if not thorough else 600
+    # ---- zipper
+    for wa, wr in [(1, 1), (3, 4), (8, 2), (4, 8)] + ([(2, 2), (5, 1), (16, 16)] if thorough else []):
+        cases.append(
+            _zcase(wa, wr, [
+                # directed: fill the FIFO, overfill, result buffered, result forwarded, read on empty
+                "cyc wa=1 wr=- rd=1 pk=1", "cyc wa=0 wr=- rd=1 pk=1", "cyc wa=1 wr=- rd=1 pk=1", "cyc wa=- wr=1 rd=1 pk=1",
+                "cyc wa=1 wr=0 rd=0 pk=1", "cyc wa=0 wr=1 rd=0 pk=0", "cyc wa=- wr=- rd=1 pk=1", "cyc wa=- wr=1 rd=1 pk=1",
+                "cyc wa=- wr=0 rd=1 pk=1", "cyc wa=1 wr=1 rd=1 pk=1", "cyc wa=- wr=0 rd=1 pk=1", "cyc wa=0 wr=1 rd=1 pk=1",
+                "cyc wa=1 wr=1 rd=1 pk=1", "cyc wa=0 wr=0 rd=1 pk=1",
+            ], "directed")
+        )
+        for pa, pr, prd in [(0.5, 0.5, 0.5), (0.9, 0.3, 0.9), (0.3, 0.9, 0.9), (1.0, 1.0, 1.0), (0.8, 0.8, 0.3)]:
+            cases.append(_zcase(wa, wr, _zops(rng, wa, wr, n, pa, pr, prd, counters=rng.random() < 0.7), "random"))
+    if thorough:
+        # every input sequence of length 5 over {no write, write}^2 x {read} (values = running counters)
+        for seq in itertools.product(range(8), repeat=5):
+            ops, ca, cr = [], 0, 0
+            for x in seq:
+                a = r = "-"
+                if x & 1:
+                    a, ca = ca % 8, ca + 1
+                if x & 2:
+                    r, cr = (3 * cr + 1) % 16, cr + 1
+                ops.append(f"cyc wa={a} wr={r} rd={(x >> 2) & 1} pk=1")
+            cases.append(_zcase(3, 4, ops, "exhaustive"))
+    # ---- serializer: all port counts / depths in a range, several traffic regimes
+    ports_l = [1, 2, 3, 4] if not thorough else [1, 2, 3, 4, 5, 6, 8]
+    depth_l = [1, 2, 3, 5] if not thorough else [1, 2, 3, 4, 5, 6, 7, 8, 9]
+    regimes = [
+        (0.6, 0.7, 0.8, 0.8, 0.0),  # balanced
+        (0.9, 0.9, 1.0, 0.3, 0.0),  # slow server: queue fills
+        (0.3, 1.0, 1.0, 1.0, 0.0),  # fast server: queue mostly empty
+        (1.0, 1.0, 1.0, 1.0, 0.0),  # saturated
+        (0.7, 0.7, 0.8, 0.7, 0.04),  # with clears
+    ]
+    for ports in ports_l:
+        for depth in depth_l:
+            w = rng.choice([2, 4, 6])
+            regs = regimes if thorough else rng.sample(regimes[:4], 2) + [regimes[4]]
+            for pin, pout, preq, presp, pclr in regs:
+                cases.append(
+                    _scase(ports, depth, w, _sops(rng, ports, w, n, pin, pout, preq, presp, pclr), "random")
+                )
+    if thorough:
+        # every history of length 4 for 2 ports, depth 1 and 2: per cycle which ports request, which ask, server bits
+        for depth in (1, 2):
+            for seq in itertools.product(range(32), repeat=3):
+                ops, c = [], 0
+                for x in seq:
+                    ins = []
+                    for p in range(2):
+                        if (x >> p) & 1:
+                            ins.append(str(c % 16))
+                            c += 1
+                        else:
+                            ins.append("-")
+                    ops.append(
+                        f"cyc in={','.join(ins)} out=11 req={(x >> 2) & 1} resp={(x >> 3) & 1} rdata={(5 * c + 3) % 16} clr=0"
+                    )
+                    if (x >> 4) & 1:
+                        ops.append(f"cyc in=-,- out=11 req=0 resp=1 rdata={(7 * c + 1) % 16} clr=0")
+                cases.append(_scase(2, depth, 4, ops, "exhaustive"))
+    return cases
+
+
+def more_cases(case: Case, rng):
+    d = case.desc
+    for _ in range(30):
+        if d["component"] == "zipper":
+            yield _zcase(d["wa"], d["wr"], _zops(rng, d["wa"], d["wr"], 200, rng.random(), rng.random(), rng.random(), True), "search")
+        else:
+            yield _scase(
+                d["ports"], d["depth"], d["w"],
+                _sops(rng, d["ports"], d["w"], 200, rng.random(), rng.random(), 0.5 + rng.random() / 2, rng.random(), 0.0),
+                "search",
+            )
+
+
+def run(ctx: Check):
+    ctx.rule = (
+        "case = (component, configuration, history of attempted client calls and server readiness/response data per "
+        "cycle); zipper non-trivial = a result is forwarded in its write cycle, another is read from the buffer, and "
+        "the argument FIFO is full at least once; serializer non-trivial = two clients compete for the server in one "
+        "cycle, the pending queue fills up, and responses are delivered"
+    )
+    ctx.proof_stage()
+    cases = gen_cases(ctx, ctx.rng("gen"))
+    for c in cases:
+        ctx.count(f"component_{c.desc['component']}")
+        if c.desc["component"] == "serializer":
+            ctx.count(f"serializer_ports_{c.desc['ports']}")
+            ctx.count(f"serializer_depth_{c.desc['depth']}")
+    lockstep(ctx, "reqres", "C19", cases, impl, monitor, more_cases, nontrivial, procs=1 if ctx.quick else 8)
+
+
+def replay(ctx: Check, body: dict):
+    from ..lockstep import replay_case
+
+    return replay_case(body, impl, monitor)
